@@ -22,6 +22,9 @@ func (st *State) decide(c *Term) bool {
 	if c.Op == OConst {
 		return c.K != 0
 	}
+	if st.spec {
+		panic(specAbort{})
+	}
 	w := st.run.workerOf(st)
 	if st.model == nil {
 		r, m := w.solver.Check(st.pc, nil, true)
@@ -64,6 +67,9 @@ func (st *State) solverTrouble(r Result) {
 func (st *State) concretize(t *Term) uint64 {
 	if t.Op == OConst {
 		return t.K
+	}
+	if st.spec {
+		panic(specAbort{})
 	}
 	w := st.run.workerOf(st)
 	if st.model == nil {
@@ -146,6 +152,9 @@ func panicString(v Value) string {
 
 // throw raises a Go panic: unwinds to the nearest vCatch boundary.
 func (st *State) throw(v Value) {
+	if st.spec {
+		panic(specAbort{})
+	}
 	for i := len(st.frames) - 1; i >= 0; i-- {
 		f := st.frames[i]
 		if len(f.defers) > 0 {
@@ -433,6 +442,9 @@ func (st *State) step() {
 		st.set(f, x, st.typeAssert(f, x))
 	case *ssa.If:
 		c := st.term(f, x.Cond)
+		if c.Op != OConst && st.tryMerge(f, c) {
+			return
+		}
 		if st.decide(c) {
 			st.jump(f, f.blk.Succs[0])
 		} else {
